@@ -29,7 +29,7 @@ def floors(ctx):
     q = ctx.tier == "quick"
     return {"evaluations": 5000 if q else 50000, "small_count_default_connectivity": 50,
             "hostile_stream_runs": 100, "reproducibility_checked": 500, "graphs_with_links": 1000,
-            "large_count_runs": 50, "fresh_process_reproducibility_checks": 3,
+            "large_count_runs": 50, "fresh_process_reproducibility_checks": 3, "forked_child_reproducibility_checks": 3,
             "runs_with_an_extreme_raw_draw": 1000, "seeded_pairs_run_in_a_worker_thread": 20,
             "dense_mid_size_runs": 200}
 
@@ -300,8 +300,77 @@ def fresh_process_reproducibility(ctx, count, cname, ensure, seed):
                       f"ensurelink={ensure}) as the first library call of a new interpreter gave {a}, then {b} and {c}", case)
 
 
+def forked_child_reproducibility(ctx, count, cname, ensure, seed):
+    """
+    random.seed(s); randgraph(...) as the FIRST call in a process that was fork()ed after the library had been imported
+    (multiprocessing's default start method on Linux, pre-fork servers): same graph as in the parent, and as the
+    second equally seeded call in the child.
+    """
+    import json
+    import os
+    import threading
+
+    case = {"count": count, "cls": cname, "ensure": ensure, "seed": seed, "forked": True, "conn": None, "stream": None}
+    if threading.active_count() != 1:
+        return  # (never the case in these runs: forking a multi-threaded interpreter is not what is being judged)
+    cls = zoo.EDGE_CLASSES[cname]
+    state = random.getstate()
+    try:
+        random.seed(seed)
+        parent = oracles.outcome(lambda: adjacency(rg.randgraph(count=count, edge=cls, ensurelink=ensure)))
+    finally:
+        random.setstate(state)
+    if parent[0] != "ok":
+        return
+    rfd, wfd = os.pipe()
+    pid = os.fork()
+    if pid == 0:  # child: nothing but the two seeded calls, then leave without running any clean-up of the parent
+        code = 0
+        try:
+            os.close(rfd)
+            out = []
+            for _ in range(2):
+                random.seed(seed)
+                out.append(adjacency(rg.randgraph(count=count, edge=cls, ensurelink=ensure)))
+            os.write(wfd, json.dumps(out).encode())
+        except BaseException as exc:  # noqa: BLE001
+            try:
+                os.write(wfd, json.dumps({"raised": type(exc).__name__}).encode())
+            except OSError:
+                code = 3
+        finally:
+            os._exit(code)
+    os.close(wfd)
+    chunks = []
+    while True:
+        b = os.read(rfd, 1 << 16)
+        if not b:
+            break
+        chunks.append(b)
+    os.close(rfd)
+    os.waitpid(pid, 0)
+    ctx.evaluated()
+    ctx.count("forked_child_reproducibility_checks")
+    try:
+        got = json.loads(b"".join(chunks).decode())
+    except ValueError:
+        raise RuntimeError("forked child wrote nothing readable") from None
+    want = json.loads(json.dumps(parent[1]))
+    ctx.nontrivial(("forked", count, cname, ensure, seed, str(want)))
+    if isinstance(got, dict):
+        ctx.violation("forked_child:raised:" + got["raised"], f"randgraph in a forked child raised {got['raised']}", case)
+    elif not (got[0] == got[1] == want):
+        which = "first_call_differs" if got[1] == want else "calls_differ"
+        ctx.violation(f"not_reproducible:forked_child:{which}", f"random.seed({seed}); randgraph(count={count}, {cname}, "
+                      f"ensurelink={ensure}) gave {want} in this process, but {got[0]} then {got[1]} as the first calls of a "
+                      "child forked after the import", case)
+
+
 def run(ctx):
     quick = ctx.tier == "quick"
+    if ctx.shard in (0, 5):
+        for n, (count, cname, ensure) in enumerate(((15, "DirectedEdge", True), (6, "UnDirectedEdge", False), (9, "DirectedEdge", False))):
+            forked_child_reproducibility(ctx, count, cname, ensure, 4048 + n + ctx.seed)
     if ctx.shard == 0:
         for n, (count, cname, ensure) in enumerate(((15, "DirectedEdge", True), (6, "UnDirectedEdge", False), (40, "DirectedEdge", True))):
             fresh_process_reproducibility(ctx, count, cname, ensure, 2024 + n + ctx.seed)
@@ -374,6 +443,11 @@ def run(ctx):
 def replay(ctx, case):
     if case.get("fresh"):
         fresh_process_reproducibility(ctx, case["count"], case["cls"], case["ensure"], case["seed"])
+        ctx.nontrivial("replay-a")
+        ctx.nontrivial("replay-b")
+        return
+    if case.get("forked"):
+        forked_child_reproducibility(ctx, case["count"], case["cls"], case["ensure"], case["seed"])
         ctx.nontrivial("replay-a")
         ctx.nontrivial("replay-b")
         return
